@@ -4,7 +4,7 @@
    today's pure-Go build violates it for phrases the reader turns into a multi-token gram hash or into no token -
    finding C20-bloom-gram-phrase). *)
 From Coq Require Import List Bool Arith NArith.
-From OG Require Import C20.BloomModel C20.BloomProofs C20.BloomRepair C20.TokModel C20.TokProofs.
+From OG Require Import C20.BloomModel C20.BloomProofs C20.BloomRepair C20.TokModel C20.TokProofs C20.UtfTok.
 Import ListNotations.
 
 Theorem bloom_no_false_negative : forall (token : Type) (hashpos : token -> list nat) ts t,
@@ -100,4 +100,45 @@ Example C20_bloom_ascii_example :
 Proof.
   split; [|split; [|split; [|split]]]; try (vm_compute; reflexivity).
   intros x Hx. simpl in Hx. repeat (destruct Hx as [<- | Hx]; [reflexivity|]). destruct Hx.
+Qed.
+
+(* ---------- the tokenizer premise PROVED for valid UTF-8 and the UTF-8 aware tokens (writer since 9dd9491 / 71f094e) ----------
+   utokens = SimpleUtf8Tokenizer (an ASCII run between split characters, or one multi-byte character by its lead-byte class,
+   a truncated last character = what is left of it); valid = UTF-8 by length classes (lead 0xC0-0xDF + 1, 0xE0-0xEF + 2,
+   0xF0-0xF7 + 3 continuation bytes 0x80-0xBF). Uses that UTF-8 is self-synchronising (valid_occurrence). *)
+Theorem C20_finder_utokens_incl : forall (split : N -> bool) p v,
+  valid v -> valid p -> finder split p v = true -> incl (utokens split p) (utokens split v).
+Proof. exact finder_utokens_incl. Qed.
+Print Assumptions C20_finder_utokens_incl.
+
+Theorem C20_utf8_self_synchronising : forall a p b, valid (a ++ p ++ b) -> valid p -> p <> [] -> valid a /\ valid b.
+Proof. exact (valid_occurrence (fun _ => false)). Qed.
+
+(* end to end for valid UTF-8 text: phrases are valid UTF-8 strings (a sigma type), no premise about the tokenizers is left *)
+Theorem C20_bloom_skip_sound_utf8 :
+  forall (split : N -> bool) (hashpos : list N -> list nat) other f0 inschema (rows : list (row (list N))) r
+         (e : sk (pred {p : list N | valid p})),
+  (forall r v, In r rows -> r f0 = Some v -> valid v) ->
+  In r rows ->
+  sk_fold (eval_pred (list N) {p : list N | valid p} (fun ph v => finder split (proj1_sig ph) v) other r) e = true ->
+  bloom_kept_r (list N) hashpos {p : list N | valid p} (fun ph => utokens split (proj1_sig ph)) f0 inschema
+               (block_filter (list N) hashpos (list N) (utokens split) f0 rows) e = true.
+Proof.
+  intros split hashpos other f0 inschema rows r e Hv Hr He.
+  eapply BloomRepair.bloom_skip_sound_r; eauto.
+  intros r0 v [p Hp] Hr0 Hv0 Hm. simpl in *. apply finder_utokens_incl; eauto.
+Qed.
+Print Assumptions C20_bloom_skip_sound_utf8.
+
+(* "ab" + a 3-byte character + "cd": the ASCII words and the character are tokens; the phrase "ab" is found and kept *)
+Example C20_utf8_example :
+  let split := fun b : N => ((b =? 32) || (b =? 47))%N in
+  let v := [97; 98; 229; 141; 142; 99; 100]%N in
+  valid v /\ utokens split v = [[97; 98]; [229; 141; 142]; [99; 100]]%N /\ finder split [97; 98]%N v = true /\
+  incl (utokens split [97; 98]%N) (utokens split v).
+Proof.
+  split; [|split; [vm_compute; reflexivity | split; [vm_compute; reflexivity|]]].
+  - apply v_1; [reflexivity|]. apply v_1; [reflexivity|]. apply v_3; try (unfold contb; split); try (vm_compute; discriminate).
+    apply v_1; [reflexivity|]. apply v_1; [reflexivity|]. constructor.
+  - intros t Ht. vm_compute in Ht. destruct Ht as [<-|[]]. vm_compute. now left.
 Qed.
